@@ -76,9 +76,9 @@ func init() {
 	propSpecs = []*PropSpec{
 		{
 			ID:          "C01",
-			Rules:       []RuleUse{use("R-DISPATCH", "v5"), use("R-TOKEN", "v5"), use("R-TOKTAB", "v5"), use("R-REPLACE", "v5"), use("R-MOVE", "v5"), use("R-COPYISO", "v5"), use("R-TYPESTATE", "v5"), use("R-SUCCESS", "v5"), {Rule: "R-BOUNDS", Bodies: []string{"v5"}, KeyHas: []string{"(*partialArray)", "findObject", "(*partialDoc)"}}, use("R-NEGIDX", "v5"), use("R-SELF", "v5")},
-			Explanation: "Decided for the v5 body: R-DISPATCH (all six RFC 6902 operations reach the handler with that operation's container effects; validator table = RFC 6902 §4; verdict cannot be bypassed), R-TOKEN + R-TOKTAB (every reference token obtained by splitting a path is decoded exactly once, by a decoder whose table and order are RFC 6901's, on every route to a member lookup, insertion or removal), R-REPLACE (replace requires the target to exist), R-MOVE (move = get, remove of the same container/key, destination resolved after the removal, add of that same value), R-COPYISO (copy inserts a fresh deep duplicate, never an alias), R-TYPESTATE (a null root is held as a nil container that every later operation rejects instead of dereferencing). R-SUCCESS (every handler reports success only after performing its operation). R-BOUNDS + R-NEGIDX (the index arithmetic of the four array methods stays in range for every parsed index and both SupportNegativeIndices settings; a negative index is honoured only under the option and is an error otherwise). R-SELF (the empty reference token denotes the container as it is now — a node built over the live container — never the parse-time snapshot: copy from \"\" sees the earlier operations).",
-			NotDecided:  "that the resulting values equal the RFC 6902 result (value-level: needs the contents of the lazily parsed byte slices); the null-equivalence clause (add null then test null); index semantics beyond range safety.",
+			Rules:       []RuleUse{use("R-DISPATCH", "v5"), use("R-TOKEN", "v5"), use("R-TOKTAB", "v5"), use("R-REPLACE", "v5"), use("R-MOVE", "v5"), use("R-COPYISO", "v5"), use("R-TYPESTATE", "v5"), use("R-SUCCESS", "v5"), {Rule: "R-BOUNDS", Bodies: []string{"v5"}, KeyHas: []string{"(*partialArray)", "findObject", "(*partialDoc)"}}, use("R-NEGIDX", "v5"), use("R-SELF", "v5"), use("R-NULLSPELL", "v5")},
+			Explanation: "Decided for the v5 body: R-DISPATCH (all six RFC 6902 operations reach the handler with that operation's container effects; validator table = RFC 6902 §4; verdict cannot be bypassed), R-TOKEN + R-TOKTAB (every reference token obtained by splitting a path is decoded exactly once, by a decoder whose table and order are RFC 6901's, on every route to a member lookup, insertion or removal), R-REPLACE (replace requires the target to exist), R-MOVE (move = get, remove of the same container/key, destination resolved after the removal, add of that same value), R-COPYISO (copy inserts a fresh deep duplicate, never an alias), R-TYPESTATE (a null root is held as a nil container that every later operation rejects instead of dereferencing). R-SUCCESS (every handler reports success only after performing its operation). R-BOUNDS + R-NEGIDX (the index arithmetic of the four array methods stays in range for every parsed index and both SupportNegativeIndices settings; a negative index is honoured only under the option and is an error otherwise). R-SELF (the empty reference token denotes the container as it is now — a node built over the live container — never the parse-time snapshot: copy from \"\" sees the earlier operations). R-NULLSPELL (a test verdict on a non-nil looked-up node always consults that node's content, so a null stored by add/replace — a non-nil node whose text is null — is seen as null by later test operations).",
+			NotDecided:  "that the resulting values equal the RFC 6902 result (value-level: needs the contents of the lazily parsed byte slices); value-level agreement of equal() with RFC equality beyond the null-spelling mechanism; index semantics beyond range safety.",
 			Trusted:     commonTrusted, Assumptions: commonAssumptions,
 		},
 		{
